@@ -73,8 +73,8 @@ def walk(w, rnd, profile, steps, opts):
                     if rnd.random() < 0.8:
                         do(w.set(a, h, 1))
                 continue
-            elif w.due() and w.due()[0].at < HORIZON:
-                do(w.fire(rnd.choice(w.due()))); continue
+            elif w.due() and w.due()[0].at < HORIZON and w.in_range(w.due()[0]):
+                do(w.fire(w.due()[0])); continue
             else:
                 break
         if st == "IdleState":
@@ -145,7 +145,9 @@ def walk(w, rnd, profile, steps, opts):
                 do(w.set(a, rnd.choice(["onPublish", "onDisconnection", "onMqttConnectionMade"]), rnd.randint(0, 1)))
         elif name == "fire":
             if w.due() and w.due()[0].at < HORIZON and fires[0] < opts.get("maxfires", 10):
-                fires[0] += 1; do(w.fire(rnd.choice(w.due())))
+                dc = rnd.choice(w.due())
+                if w.in_range(dc):
+                    fires[0] += 1; do(w.fire(dc))
         elif name == "idle":
             ps = W.clock.pending()
             room = (ps[0].at - W.clock.now) if ps else 5000
